@@ -2131,8 +2131,20 @@ def read_build(fn):
     stmts = [s for s in body_of(fn) if not (isinstance(s, ast.Expr) and isinstance(s.value, ast.Call) and ast.unparse(s.value.func).startswith('logger.'))]
     args = [a.arg for a in fn.args.args]
     lo, hi = (args[1], args[2]) if len(args) == 3 else ('lower_bound', 'upper_bound')
+    pend = None     # `a, b = self._create_agents()` followed by `self.agents = a` and `self.best_agent = b`
     for k, st in enumerate(stmts):
         u = ' '.join(ast.unparse(st).split())
+        if pend is None and isinstance(st, ast.Assign) and len(st.targets) == 1 and isinstance(st.targets[0], ast.Tuple) and len(st.targets[0].elts) == 2 \
+                and all(isinstance(e, ast.Name) for e in st.targets[0].elts) and ast.unparse(st.value) == 'self._create_agents()' and not F['agentsFromCreate']:
+            pend = [st.targets[0].elts[0].id, st.targets[0].elts[1].id, 0]
+            continue
+        if pend is not None and pend[2] == 0 and u == f'self.agents = {pend[0]}':
+            pend[2] = 1
+            continue
+        if pend is not None and pend[2] == 1 and u == f'self.best_agent = {pend[1]}':
+            pend[2] = 2
+            F['agentsFromCreate'] = True
+            continue
         if u == f'self.lb = np.asarray({lo})' and not F['lbFromArg']:
             F['lbFromArg'] = True
         elif u == f'self.ub = np.asarray({hi})' and not F['ubFromArg']:
